@@ -157,7 +157,7 @@ func (c *ctl) check() {
 func (c *ctl) sendInvalid(t *rapid.T) {
 	m := c.m
 	w := m.W
-	kind := rapid.SampledFrom([]string{"unknown-dst", "over-balance", "huge-amount", "empty-packet", "direct-sendPacket", "wrong-sequence", "self-dst"}).Draw(t, "kind")
+	kind := rapid.SampledFrom([]string{"unknown-dst", "lookalike-dst", "over-balance", "huge-amount", "empty-packet", "direct-sendPacket", "wrong-sequence", "self-dst"}).Draw(t, "kind")
 	src := rapid.IntRange(0, len(w.Chains)-1).Draw(t, "src")
 	ch := w.Chains[src]
 	dst := w.Chains[(src+1)%len(w.Chains)].ChainID
@@ -167,6 +167,14 @@ func (c *ctl) sendInvalid(t *rapid.T) {
 	switch kind {
 	case "unknown-dst":
 		spec.DstName = "no-such-chain"
+		spec.Token = common.Address{}
+		if src != 0 {
+			spec.Token = w.TTok[src]
+		}
+	case "lookalike-dst":
+		// a destination that has no client of its own but resembles a name that has one (path syntax, letter case, blanks)
+		spec.DstName = rapid.SampledFrom([]string{dst + "/", "./" + dst, "x/../" + dst, dst + "//", "/" + dst, " " + dst, dst + " ", strings.ToUpper(dst), dst + "\x00",
+			"clients/" + dst, dst + "/clientState"}).Draw(t, "lookalike")
 		spec.Token = common.Address{}
 		if src != 0 {
 			spec.Token = w.TTok[src]
